@@ -46,8 +46,29 @@ pub struct KEvent {
     pub ev: KEv,
 }
 
+/// One line the simulated gpsd daemon sends to radar's gpsd thread.
+#[derive(Serialize, Deserialize, Clone, Debug, PartialEq)]
+pub struct KGpsdLine {
+    /// the line is handed over at the first main-loop iteration boundary at or after this time
+    pub at_us: u64,
+    /// JSON text without the line terminator
+    pub text: String,
+    /// the position this line reports, when it is a TPV report with a fix (for the seam log)
+    pub fix: Option<(f64, f64)>,
+}
+
+/// The gpsd daemon radar talks to with `--gpsd` (second connection, served to radar's own thread).
+#[derive(Serialize, Deserialize, Clone, Debug, PartialEq, Default)]
+pub struct KGpsd {
+    pub refuse: bool,
+    pub lines: Vec<KGpsdLine>,
+}
+
 #[derive(Serialize, Deserialize, Clone, Debug, PartialEq, Default)]
 pub struct KChild {
+    /// gpsd daemon script (None: radar runs without `--gpsd`)
+    #[serde(default)]
+    pub gpsd: Option<KGpsd>,
     pub connects: Vec<KConnect>,
     /// operator events, sorted by time
     pub events: Vec<KEvent>,
@@ -57,4 +78,9 @@ pub struct KChild {
     pub coalesce: Vec<bool>,
     /// more seam calls than this = hang; the seam logs BUDGET and exits 3
     pub step_budget: u64,
+    /// time the client spends handling one operator event (decoding the escape sequence, its own
+    /// handler), cycled; empty = none. Without it computation would take no time at all and a
+    /// deadline could never be overrun between two seam calls.
+    #[serde(default)]
+    pub ev_delay_us: Vec<u64>,
 }
